@@ -1375,7 +1375,23 @@ class Interp:
         return out
 
     def e_GeneratorExp(self, node, env, module):
-        return self.e_ListComp(node, env, module)   # eager (documented)
+        # lazy, single-use (any()/all()/next() stop early, as in CPython; side effects such as walrus bindings match)
+        return self.lib.LazyGen(self._comp_iter(node, env, module))
+
+    def _comp_iter(self, node, env, module):
+        cenv = Env(env, "comp")
+
+        def rec(i):
+            if i == len(node.generators):
+                yield self.eval(node.elt, cenv, module)
+                return
+            g = node.generators[i]
+            it = self.eval(g.iter, cenv if i else env, module)
+            for x in self.iterate(it):
+                self._assign_comp_target(g.target, x, cenv, module)
+                if all(self.truth(self.eval(c, cenv, module)) for c in g.ifs):
+                    yield from rec(i + 1)
+        return rec(0)
 
     def e_SetComp(self, node, env, module):
         out = []
